@@ -755,8 +755,13 @@ class Namespace:
         self.__attrs = dict(*args, **kwargs)
 
     def __getattribute__(self, name: str) -> t.Any:
-        # __class__ is needed for the awaitable check in async mode
-        if name in {"_Namespace__attrs", "__class__"}:
+        # __class__ is needed for the awaitable check in async mode. Special
+        # names are never served from the attributes: library code that looks
+        # for ``__html__`` or ``__aiter__`` must not be handed (and then call)
+        # an object that a template stored under that name.
+        if name == "_Namespace__attrs" or (
+            name.startswith("__") and name.endswith("__")
+        ):
             return object.__getattribute__(self, name)
         try:
             return self.__attrs[name]
